@@ -6,22 +6,28 @@
 (* harness as real files and a real command line.                           *)
 (***************************************************************************)
 EXTENDS Cli, Json
-CONSTANTS MaxArgs, Emit
+CONSTANTS MaxArgs, Emit, Clean      \* Clean = TRUE: only fault-free plans (used to afford three arguments)
 
 Kinds == OkKinds \cup LoadFails \cup GenFails
 \* sample ids: argument i contributes ids 10*i + 1 .. (list: two, others: one)
 IdsOf(i, kind) == IF kind \in {"list", "glob"} THEN <<10 * i + 1, 10 * i + 2>>
                   ELSE IF kind \in {"object", "lookup", "nonobject", "nonstrkey"} THEN <<10 * i + 1>> ELSE <<>>
-\* share = TRUE: this argument names the SAME physical file as argument 1, with another lookup
-ArgsSets == {x \in UNION {[1..n -> [flag : {"m", "l"}, model : {"A", "B"}, kind : Kinds, share : BOOLEAN]] : n \in 1..MaxArgs} :
-               \A i \in DOMAIN x : x[i].share => (i > 1 /\ x[i].kind = "lookup" /\ x[1].kind = "lookup")}
+\* share = TRUE: this argument names the SAME physical file as argument 1, with another lookup;
+\* alias = TRUE: it names exactly the same file and lookup as argument 1 again (possibly under another model name)
+RawArgs == UNION {[1..n -> [flag : {"m", "l"}, model : {"A", "B"}, kind : (IF Clean THEN OkKinds ELSE Kinds), share : BOOLEAN, alias : BOOLEAN]] : n \in 1..MaxArgs}
+ArgsSets == {x \in RawArgs :
+               \A i \in DOMAIN x :
+                  /\ (x[i].share => (i > 1 /\ x[i].kind = "lookup" /\ x[1].kind = "lookup" /\ ~x[i].alias))
+                  /\ (x[i].alias => (i > 1 /\ x[i].kind = x[1].kind /\ x[1].kind \in {"list", "object", "lookup"}))}
 \* at most one faulty thing per plan
 FaultCount(as) == Cardinality({i \in DOMAIN as : as[i].kind \notin OkKinds})
-Plans == {[args |-> [i \in DOMAIN as |-> [flag |-> as[i].flag, model |-> as[i].model, kind |-> as[i].kind, share |-> as[i].share, ids |-> IdsOf(i, as[i].kind)]],
+Plans == {[args |-> [i \in DOMAIN as |-> [flag |-> as[i].flag, model |-> as[i].model, kind |-> as[i].kind, share |-> as[i].share,
+                                            alias |-> as[i].alias,
+                                            ids |-> IF as[i].alias THEN IdsOf(1, as[1].kind) ELSE IdsOf(i, as[i].kind)]],
            out |-> o, fault |-> f] :
           as \in {x \in ArgsSets : FaultCount(x) <= 1 /\ x[1].model = "A"},
-          o \in {"none", "absent", "old", "unwritable"},
-          f \in {"none", "argparse", "merge", "fwgen", "mergearg", "import", "generator"}}
+          o \in (IF Clean THEN {"none", "absent", "old"} ELSE {"none", "absent", "old", "unwritable"}),
+          f \in (IF Clean THEN {"none"} ELSE {"none", "argparse", "merge", "fwgen", "mergearg", "import", "generator"})}
 GoodPlans == {p \in Plans : (FaultCount(p.args) = 0 \/ p.fault = "none") /\ (p.out # "unwritable" \/ (p.fault = "none" /\ FaultCount(p.args) = 0))}
 
 Init == \E p \in GoodPlans : InitWith(p) /\ (Emit => PrintT(<<"B", ToJson(p)>>))
